@@ -60,6 +60,12 @@ def build_model(spec: Dict[str, Any]) -> List[bytes]:
     parts = [doc]
     if spec.get("split", 1) > 1:
         parts = models.split(doc, random.Random(spec["split_seed"]), spec["split"])
+    if spec.get("meta_seed") is not None and len(parts) > 1:
+        # later files carry another metaData.version (spellings that tie under a numeric comparison)
+        rm_ = random.Random(spec["meta_seed"])
+        v0 = str(parts[0]["metaData"].get("version", "3.17.0"))
+        for p_ in parts[1:]:
+            p_["metaData"] = {"version": rm_.choice([v0 + "-proposed", v0 + ".0", v0.rsplit(".", 1)[0], v0 + "+build", "v" + v0, v0])}
     if spec.get("overlap_seed") is not None and len(parts) > 1:
         # a later file declares again (identically) some of what an earlier file declares, next to its
         # own declarations: "the first model extended in order by the others' declarations"
@@ -102,6 +108,8 @@ def gen_model_spec(r: random.Random, plugin: str, tier: str, allow_full: bool = 
     if r.random() < 0.3:
         spec["split"] = r.choice([2, 2, 3])
         spec["split_seed"] = r.randrange(2**40)
+        if r.random() < 0.35:
+            spec["meta_seed"] = r.randrange(2**40)
         if plugin != "python" and r.random() < 0.25:
             # (the python plugin of the pinned tree refuses some duplicated declarations)
             spec["overlap_seed"] = r.randrange(2**40)
@@ -134,6 +142,7 @@ def variant_of(spec: Dict[str, Any], r: random.Random) -> Dict[str, Any]:
     v.pop("split", None)
     v.pop("repeat", None)
     v.pop("overlap_seed", None)
+    v.pop("meta_seed", None)
     return v
 
 
@@ -200,6 +209,13 @@ def gen_history(run_seed: int, tier: str, plugin: Optional[str] = None) -> Dict[
             ops.append(["RUN", Mp, gw.env_for(run_seed, f"pre{i}", re_), fault])
     reps = r.choice([1, 1, 2, 3])
     finals = [gw.env_for(run_seed, f"final{i}", re_) for i in range(reps)]
+    for f_ in finals:
+        if r.random() < 0.15:
+            # the same interpreter generated another model (sometimes with another plugin) just before
+            f_["inproc_model"] = variant_of(M, r)
+            if r.random() < 0.3:
+                f_["inproc_plugin"] = r.choice(OTHER[plugin])
+                f_["inproc_model"] = gen_model_spec(r, "python", tier, allow_full=False)
     use_test_dir = plugin == "rust" and r.random() < 0.6
     # where the output directory lives: short path, or nested under long directory names, or reached
     # through a relative path from another working directory is not possible (cwd must be the tree), so
@@ -274,7 +290,7 @@ def execute(h: Dict[str, Any]) -> Dict[str, Any]:
     viol: List[Dict[str, str]] = []
     probes = {k: 0 for k in ["stale_owned_placed", "stale_realname_placed", "stale_casename_placed", "foreign_placed", "empty_pkg_dir_placed", "committed_copy_placed",
                              "cleanup_removed_stale", "stale_overwritten", "fault_fired", "fault_not_reached", "faulted_run_failed",
-                             "faulted_run_left_partial", "other_plugin_tree", "merge_files", "model_path_repeated", "model_files_overlap", "different_model_before", "listing_permuted",
+                             "faulted_run_left_partial", "other_plugin_tree", "merge_files", "earlier_generation_in_same_process", "model_path_repeated", "model_files_overlap", "different_model_before", "listing_permuted",
                              "test_dir_used", "uuid_checked", "ascii_locale", "clock_shifted", "slow_machine_clock", "long_output_path", "crlf_main_rs", "symlinked_output_dir", "python_optimize", "path_spelled_relative_or_odd", "other_machine_identity"]}
     faults_fired: Dict[str, int] = {}
     evlog: List[Any] = []
@@ -410,6 +426,11 @@ def execute(h: Dict[str, Any]) -> Dict[str, Any]:
         for j, env in enumerate(h["finals"]):
             stale_before = set(gw.owned_files(plugin, out)) - set(ref_owned)
             same_before = {k for k, v in gw.owned_files(plugin, out).items() if k in ref_owned and v != ref_owned[k]}
+            if env.get("inproc_model") is not None:
+                pre_files = path_list(w.write_models(f"inproc{j}", build_model(env["inproc_model"])), env["inproc_model"])
+                pre_plugin = env.get("inproc_plugin") or plugin
+                env = dict(env, inproc_before=[["--plugin", pre_plugin, "--model"] + pre_files + ["--output-dir", str(w.path(f"inproc_out{j}")), "--test-dir", str(w.path(f"inproc_td{j}"))]])
+                probes["earlier_generation_in_same_process"] += 1
             rj = gw.run_generator(w, plugin, str(out), str(td), files_M, env)
             if env.get("ls_seed") is not None:
                 probes["listing_permuted"] += 1
@@ -520,6 +541,8 @@ def minimise(h: Dict[str, Any], sig: str) -> Tuple[Dict[str, Any], Dict[str, Any
         lambda c: c.update(out_symlink=False),
         lambda c: c["model"].pop("repeat", None),
         lambda c: c["model"].pop("overlap_seed", None),
+        lambda c: c["model"].pop("meta_seed", None),
+        lambda c: [f_.pop("inproc_model", None) for f_ in c["finals"]],
         lambda c: (c["model"].pop("split", None), c["model"].pop("repeat", None)),
         lambda c: c["model"].pop("compact", None),
         lambda c: c["model"].update(n_edits=0),
